@@ -24,6 +24,7 @@ TraceReset ==
     /\ ttl' = [t \in Tables |-> ""] /\ pol' = [t \in Tables |-> ""]
     /\ cfg' = [policy |-> Ev.policy, ttl |-> Ev.ttl]
     /\ pc' = "idle" /\ gi' = 1 /\ ti' = 1 /\ alters' = 0 /\ lastDone' = NoCfg /\ clean' = FALSE
+    /\ torn' = [j \in 1..Len(Groups) |-> FALSE]
     /\ faults' = 0 /\ changes' = 0
 
 \* a run starts, possibly with another configuration
@@ -34,7 +35,7 @@ TraceStart ==
     /\ pc' = "get" /\ gi' = 1 /\ ti' = 1 /\ alters' = 0
     /\ clean' = (lastDone = cfg')
     /\ lastDone' = NoCfg
-    /\ UNCHANGED <<settings, ttl, pol, faults, changes>>
+    /\ UNCHANGED <<settings, ttl, pol, torn, faults, changes>>
 
 TraceGet ==
     /\ Is("Get") /\ pc = "get"
@@ -75,7 +76,7 @@ TracePut ==
 TraceStop ==
     /\ More /\ Ev.ev \in {"Crash", "ReturnErr"} /\ Consume
     /\ pc' = "failed"
-    /\ UNCHANGED <<settings, ttl, pol, cfg, gi, ti, alters, lastDone, clean, faults, changes>>
+    /\ UNCHANGED <<settings, ttl, pol, cfg, gi, ti, alters, lastDone, clean, torn, faults, changes>>
 
 TraceReturnOK == Is("ReturnOK") /\ pc = "done" /\ Consume /\ UNCHANGED vars
 
